@@ -8,9 +8,9 @@ head = "## 12. Seeded changes (independent sub-agents) and which checks catch th
 i = s.index(head)
 table = subprocess.run([sys.executable, os.path.join(HERE, "tools", "seed_table.py")], capture_output=True, text=True).stdout
 text = head + """
-Five rounds of 19 fresh sub-agents each (95 changes). Every agent got only the text of one property and its own scratch
-git worktree of /repo under /tmp (nothing from /verif; rounds 2-5 were additionally told which ideas had already
-been used for that property, so that the five changes per property differ in mechanism (round 5 was also asked to stay out of the files and functions the earlier ones had touched)). Each wrote one realistic
+Six rounds of 19 fresh sub-agents each (114 changes). Every agent got only the text of one property and its own scratch
+git worktree of /repo under /tmp (nothing from /verif; rounds 2-6 were additionally told which ideas had already
+been used for that property, so that the six changes per property differ in mechanism (rounds 5 and 6 were also asked to stay out of the files and functions the earlier ones had touched)). Each wrote one realistic
 regression (a tidy-up, an off-by-one, a moved statement, a swapped argument, ...) that still passes the 88 baseline
 tests, plus a stand-alone demonstration. Each change was confirmed by `tools/seed_collect.sh` in a *fresh* scratch
 worktree (demo exits 0 on HEAD, 1 with the patch; baseline pytest command passes with the patch) and then evaluated by
@@ -18,9 +18,9 @@ worktree (demo exits 0 on HEAD, 1 with the patch; baseline pytest command passes
 live in `seeded/<id>/` (`patch.diff`, `demo.py`, `notes.md`, `confirm.json`, `eval.json`, `meta.json`); none was ever
 committed to /repo, all worktrees were removed.
 
-**Result: all 95 are reported by their own property's quick check as `VIOLATION` with a concrete failing input** (not
+**Result: all 114 are reported by their own property's quick check as `VIOLATION` with a concrete failing input** (not
 merely as a broken correspondence). That was not so at first: 9 of the first 19, 14 of the second 19, 13 of the
-third 19, 8 of the fourth 19 and 11 of the fifth 19 were initially missed or seen only as a broken correspondence. Each miss was a hole in a *generator* or a
+third 19, 8 of the fourth 19, 11 of the fifth 19 and 14 of the sixth 19 were initially missed or seen only as a broken correspondence. Each miss was a hole in a *generator* or a
 missing *clause*, never a reason to weaken a check; what was added (all of it also runs on the unchanged tree):
 
 * round 1: coarse search grids and call provenance (C02), budget stress + reserve correspondence (C03), runs started at
@@ -54,6 +54,19 @@ missing *clause*, never a reason to weaken a check; what was added (all of it al
   satisfied = not (value <= 0)" (C17), hedge_beta up to 1000 (C18), `stobads` runs checked against the predicates only (C19),
   mutable option values through a run (C20). Two checker bugs of my own were found on the way: tolerance predicates written as
   `abs(a - b) > tol` let NaN through (now `not (abs(a - b) <= tol)` everywhere), and a transient race in the axiom audit.
+
+* round 6: internal problems compared across equivalent spellings, which exposed a genuine defect (C08: integer-typed bounds truncated by
+  the in-place log transform, fixed in 0c72e91); odd and tiny ES populations (C09, C18); three exception kinds per fault position incl.
+  StopIteration (C10); positive coordinates bounded on one side only (C11); runs with `accelerate_mesh=False` under scripted stalling (C13);
+  `gp_mean_fun` alternatives under injected fit failures (C16); search-step evaluations judged against the box of a fresh transform (C17);
+  tables smaller than the initial design in constrained noisy runs (C02); optimum ~1e4 plausible half-widths outside the plausible box, with the
+  training-set distances recomputed by the harness instead of by the repository's own metric function (C15); Python's `random` module as
+  foreign history plus failed GP fits with single-start hyper-parameter optimisation (C07); the range of observations at a recorded point
+  taken from the target wrapper's own record instead of the logger's return value (C19: my clause included the merged - tainted - value in
+  the range); failing-input search for C05 by very noisy long runs with a single final sample; falsy option values `noise_size=0` (C20).
+  One more false alarm of my own surfaced under `VERIF_SEED=1`: "a predictive SD of exactly 0 means the raw observation was used" (C13,
+  round 4) is wrong for tiny `noise_size`, where the GP's posterior variance underflows to 0; the clause now also requires the value to
+  BE the raw observation of that call.
 
 Two of those generator extensions exposed genuine defects on the pinned tree (section 11: `noise_size` with specified
 noise; three boolean advanced options), which were repaired by `fix:` commits; one more (`fit_lik=False`) is a known finding.
